@@ -177,6 +177,24 @@ def _gen_measure(rng, which):
                 tree=_tree(rng))
 
 
+def _cyclic(pairs):
+    adj = {}
+    for a, b in pairs:
+        adj.setdefault(a, []).append(b)
+    state = {}
+
+    def visit(u):
+        if state.get(u) == 1:
+            return True
+        if state.get(u) == 2:
+            return False
+        state[u] = 1
+        r = any(visit(v) for v in adj.get(u, []))
+        state[u] = 2
+        return r
+    return any(visit(u) for u in list(adj))
+
+
 def _gen_impose(rng):
     n = rng.choice([1, 2, 3, 4, 5, 6])
     x = [rng.choice(GRID) + i for i in range(n)]
@@ -191,14 +209,20 @@ def _gen_impose(rng):
             tgt = [rng.choice(GRID) + 10 + j for j in range(ln)]
         return dict(kind="impose", which="at", x=x, idx=idx, target=tgt)
     pairs = set()
-    for _ in range(rng.choice([0, 1, 2, 3, 3, 4, 5])):
+    if n >= 4 and rng.random() < 0.3:
+        # chains / V shapes joining two groups late: what a tolerance test that is not transitive produces
+        ii = sorted(rng.sample(range(n), 4))
+        tpl = rng.choice([[(0, 1), (2, 3), (0, 3)], [(0, 1), (2, 3), (1, 2)], [(0, 1), (2, 3), (1, 3)], [(0, 2), (1, 3), (0, 3)],
+                          [(0, 1), (2, 3), (0, 2)], [(0, 3), (1, 2), (2, 3)]])
+        pairs = set((ii[a], ii[b]) for a, b in tpl)
+    for _ in range(rng.choice([0, 1, 2, 3, 3, 4, 5]) if not pairs else rng.choice([0, 0, 1])):
         a, b = rng.randrange(n + 1), rng.randrange(n + 1)
         if a < b:
             pairs.add((a, b))
         elif b < a and rng.random() < 0.15:
             pairs.add((a, b))   # (larger, smaller): accepted by impose_as; cyclic sets are filtered out below
     pairs = sorted(pairs)
-    if any((b, a) in pairs for a, b in pairs):
+    if _cyclic(pairs):   # impose_as never returns on a cyclic mask; the detectors only produce i<j pairs
         pairs = [p for p in pairs if p[0] < p[1]]
     return dict(kind="impose", which="as", x=x, pairs=[list(p) for p in pairs],
                 offset=rng.choice([None, False, 0, 0, True, 0.5, 10]))
@@ -575,7 +599,7 @@ def _cost_fn(case):
     return cost
 
 
-class _Timeout(Exception):
+class _Timeout(BaseException):
     pass
 
 
@@ -641,6 +665,8 @@ def _run_solve(case):
         out["finished"] = True
     except _Timeout:
         out["timeout"] = True
+    except _WallClock:
+        raise
     except Exception as e:
         out["exception"] = type(e).__name__
         out["exception_msg"] = str(e)[:200]
@@ -658,7 +684,32 @@ def _run_solve(case):
     return out
 
 
+class _WallClock(BaseException):
+    pass
+
+
 def run_impl(case):
+    """every case runs under a wall-clock guard: a hang becomes an observable (oracle: solve_terminates / no-crash)"""
+    import signal
+
+    def _alarm(*a):
+        raise _WallClock("wall-clock guard expired")
+    try:
+        old = signal.signal(signal.SIGALRM, _alarm)
+        signal.alarm(150)
+    except ValueError:      # not in the main thread
+        old = None
+    try:
+        return _run_impl(case)
+    except _WallClock:
+        return {"__exception__": "WallClockGuard", "__msg__": "case did not finish within 150 s", "__tb__": ""}
+    finally:
+        if old is not None:
+            signal.alarm(0)
+            signal.signal(signal.SIGALRM, old)
+
+
+def _run_impl(case):
     k = case["kind"]
     if k == "at":
         return _run_at(case)
@@ -843,7 +894,10 @@ def oracle(case, obs):
                 out.append(_fail("impose_as_exact", "constraints.impose_as", y["error"], obs))
             elif off == 0:
                 n = len(x)
-                bad = [p for p in case["pairs"] if p[0] < n and p[1] < n and y[p[0]] != y[p[1]]]
+                # (out-of-range members make tools.connected pick an unusable leader; the detectors never produce them,
+                #  so the relation is required only for masks that are entirely in range)
+                inrange = all(p[0] < n and p[1] < n for p in case["pairs"])
+                bad = [p for p in case["pairs"] if inrange and y[p[0]] != y[p[1]]]
                 if bad:
                     pat = "unmerged-groups" if not _groups_disjoint(obs["order"]) else "not-equal"
                     out.append(_fail("impose_as_exact", "tools.connected", pat, dict(bad=bad, obs=obs)))
@@ -933,7 +987,11 @@ def _oracle_solve(case, obs):
                     bad = next((q for q, p in enumerate(pts) if p[i] != tt), None)
                     if bad is not None:
                         final_only = bad == len(pts) - 1
-                        if i in others:
+                        if isinstance(t, list) and len(c["what"]) != len(t):
+                            # impose_at(subset, FULL target list) raised inside the constraints; with strict ranges the
+                            # ValueError is swallowed by constraints.and_ and the collapse silently does nothing
+                            site, pat = "abstract_solver.Collapse", "list-target-proper-subset"
+                        elif i in others:
                             site, pat = "abstract_solver.Collapse", "relation-overwritten-by-other-collapse"
                         else:
                             site, pat = (solver, "final-solution-off-target") if final_only else (solver, "evaluated-off-target")
